@@ -282,7 +282,28 @@ def _exit_text(code):
     return f"exit code {code}"
 
 
+def _limit_memory():
+    """address-space headroom per worker (default 3 GB above what the process has at start): a run-away conversion ends
+    in a MemoryError inside the library call -- which the property check then judges like any other escape -- instead of
+    the kernel's OOM killer picking processes of the whole run"""
+    try:
+        import resource
+        gb = float(os.environ.get("UTMC_WORKER_MEM_GB", "3"))
+        if gb <= 0:
+            return
+        with open("/proc/self/statm") as fh:
+            now = int(fh.read().split()[0]) * os.sysconf("SC_PAGE_SIZE")
+        lim = now + int(gb * (1 << 30))
+        soft, hard = resource.getrlimit(resource.RLIMIT_AS)
+        if hard != resource.RLIM_INFINITY:
+            lim = min(lim, hard)
+        resource.setrlimit(resource.RLIMIT_AS, (lim, hard))
+    except Exception:       # noqa
+        pass
+
+
 def _worker_loop(conn, modname, tier):
+    _limit_memory()
     _init_worker(modname, tier)
     while True:
         try:
@@ -296,10 +317,11 @@ def _worker_loop(conn, modname, tier):
     os._exit(0)
 
 
-def _pool_map(modname, tier, shards, workers):
+def _pool_map(modname, tier, shards, workers, fresh=False):
     """long-lived forked workers, one shard at a time each; unlike multiprocessing.Pool a worker that dies (stack overflow
     in the interpreter, a fatal signal) is noticed: its shard is yielded as ("died", (shard, exitcode)) and a fresh worker
-    takes its place, so a run never waits for a result that cannot come."""
+    takes its place, so a run never waits for a result that cannot come.  fresh=True gives every shard a newly forked
+    worker (the state of the parent), so that what a shard explores does not depend on which shards its worker ran before."""
     from multiprocessing.connection import wait
     ctx = multiprocessing.get_context("fork")
     todo = list(shards)
@@ -345,7 +367,16 @@ def _pool_map(modname, tier, shards, workers):
                     continue
                 live[conn][1] = None
                 yield res
-                feed(conn)
+                if fresh and todo:
+                    try:
+                        conn.send(None)
+                    except OSError:
+                        pass
+                    live.pop(conn)[0].join(5)
+                    conn.close()
+                    feed(spawn())
+                else:
+                    feed(conn)
     finally:
         for conn, (p, _) in list(live.items()):
             if p.is_alive():
@@ -379,7 +410,7 @@ def run_property(modname, tier, seed, workers=None, only_shards=None):
                 errors.append(r)
     else:
         done = 0
-        for st, r in _pool_map(modname, tier, shards, workers):
+        for st, r in _pool_map(modname, tier, shards, workers, fresh=getattr(mod, "FRESH_WORKER_PER_SHARD", False)):
             done += 1
             if os.environ.get("UTMC_PROGRESS"):
                 sys.stderr.write(f"[{time.time() - t0:7.1f}s] {done}/{len(shards)} shards\n")
